@@ -207,7 +207,9 @@ func (c *ctx) name(st *state, prefix string, t *T) *T {
 	n := c.d.fresh(prefix, t.sort)
 	n.def = t
 	c.defNames[n.op] = true
-	st.assume(app("=", "Bool", atom(n.op, n.sort), t))
+	da := app("=", "Bool", atom(n.op, n.sort), t)
+	c.defAsserts[da] = n.op
+	st.assume(da)
 	return n
 }
 
